@@ -245,6 +245,8 @@ def run(run):
         ns, nl = dispatch_rules.check_dispatchers(run, F, E, 'C05.b')
         facts.drop(F)
         cfgmod.clear_cache()
+    from gen import static_units
+    static_units.must_not_compile(run, 'C05.d')
     run.floor('C05.a', 100)
     run.floor('C05.b', 500)
     run.floor('C05.c', 50)
